@@ -84,7 +84,9 @@ func c20SeqSub() *engine.Sub {
 	return &engine.Sub{
 		Name: "sequential-state-graph",
 		Rule: "explicit-state search: state = deep structural dump of the shared invocation and its two delegations (private fields via reflect/unsafe, slices in storage order, maps sorted); transitions = each of 27 read-only operations; all operation sequences up to the depth bound from every token variant (argument/metadata keys inserted in every order of 0..3 keys, constructed and decoded). Invariant in every state: the dump equals the initial dump (the reachable graph has one state per variant) and the operation's result equals its result when run alone on a fresh equal token; non-trivial = sequences of length >= 2",
-		Bound: func(t string) string { return fmt.Sprintf("20 token variants x all sequences of <=%d operations out of 27", tierN(t, 2, 3)) },
+		Bound: func(t string) string {
+			return fmt.Sprintf("20 token variants x all sequences of <=%d operations out of 27", tierN(t, 2, 3))
+		},
 		Setup: func(string) error {
 			// a fixture whose chain is denied before the policies are reached would make most of the
 			// alphabet vacuous: the plain checks must succeed and the violating hook must be refused by policy
@@ -319,8 +321,10 @@ func c20RaceSub() *engine.Sub {
 		Name:    "race-detector-pairs",
 		Serial:  true,
 		Replays: 1, // each replay is a separate `go test -race` process; the detector's verdict is happens-before based
-		Rule:   "free-running pass: the same operation bodies, every unordered pair of the 27 operations (an operation with itself included) on 4 token variants, two goroutines released by a barrier, as sub-tests of `go test -race -tags verif ./racepass`, built from /repo's working tree. A sub-test the detector marks failed ('race detected during execution of test') is a violation attributed to that pair. The verdict is happens-before based, so it does not depend on the actual timing of the two goroutines; non-trivial = all pairs",
-		Bound:  func(string) string { return "378 unordered pairs x 4 variants + first-use of lazily built globals from 2 goroutines" },
+		Rule:    "free-running pass: the same operation bodies, every unordered pair of the 27 operations (an operation with itself included) on 4 token variants, two goroutines released by a barrier, as sub-tests of `go test -race -tags verif ./racepass`, built from /repo's working tree. A sub-test the detector marks failed ('race detected during execution of test') is a violation attributed to that pair. The verdict is happens-before based, so it does not depend on the actual timing of the two goroutines; non-trivial = all pairs",
+		Bound: func(string) string {
+			return "378 unordered pairs x 4 variants + first-use of lazily built globals from 2 goroutines"
+		},
 		Gen: func(tier string, emit func(any) bool) {
 			emit(&c20RaceCase{})
 		},
